@@ -331,6 +331,9 @@ func c09(r *ev.Result, tier string) {
 	the operator's queue is full (the requests wait; none is served
 	unreported). */
 	c09Stalled(r, root)
+	/* Single-file mode under concurrent requests, and after the file was
+	replaced. */
+	c09SingleFileConcurrent(r, root)
 	r.Set("responses_by_config_and_status", statuses)
 	r.Set("targets", len(targets))
 	r.Sample(5, c09Case{Config: "dir:nested", Target: "//sub/%2e%2e/..%2f/OUTSIDE-canary.txt"})
@@ -400,6 +403,74 @@ func c09Stalled(r *ev.Result, root string) {
 	}
 	r.Add(n)
 	r.AddDistinct(1)
+}
+
+func c09SingleFileConcurrent(r *ev.Result, root string) {
+	big := filepath.Join(root, "bigfile.bin")
+	mk := func(tag byte) []byte {
+		b := make([]byte, 3<<20)
+		for i := range b {
+			b[i] = tag + byte(i%251)
+		}
+		return b
+	}
+	content := mk(1)
+	os.WriteFile(big, content, 0o644)
+	defer os.Remove(big)
+	w, err := hworld.Start(hworld.Config{FDir: big})
+	if nil != err {
+		ev.Broken("%s", err)
+	}
+	defer w.Stop()
+	go func() { /* The operator keeps reading. */
+		for range w.Och {
+		}
+	}()
+	viol := func(sig, what string) {
+		r.Violate(ev.Violation{Signature: "single-file/" + sig, What: what, Kind: "c09", Replay: c09Case{Config: "file", Target: "/x (concurrent / replaced)"}})
+	}
+	fetch := func(path string) ([]byte, error) {
+		c, err := w.Dial("")
+		if nil != err {
+			return nil, err
+		}
+		defer c.Close()
+		res, err := c.Do(hworld.Get(path, w.Addr))
+		if nil != err {
+			return nil, err
+		}
+		return res.Body, nil
+	}
+	for round := 0; round < 3; round++ {
+		errs := make(chan string, 8)
+		for i := 0; i < 8; i++ {
+			go func(i int) {
+				b, err := fetch(fmt.Sprintf("/whatever/%d", i))
+				switch {
+				case nil != err:
+					errs <- fmt.Sprintf("request failed: %v", err)
+				case !bytes.Equal(b, content):
+					errs <- fmt.Sprintf("body of %d bytes differs from the file (%d bytes, first difference at %d)", len(b), len(content), firstDiff(b, content))
+				default:
+					errs <- ""
+				}
+			}(i)
+		}
+		for i := 0; i < 8; i++ {
+			if e := <-errs; "" != e {
+				viol("concurrent", "8 clients fetching the single file at the same time: "+e)
+			}
+		}
+	}
+	/* The file is replaced (new inode, new content). */
+	content = mk(101)
+	os.WriteFile(big+".new", content, 0o644)
+	os.Rename(big+".new", big)
+	if b, err := fetch("/after-replacement"); nil != err || !bytes.Equal(b, content) {
+		viol("replaced", fmt.Sprintf("after the file was replaced, a request returned %d bytes (err %v) that are not the file's present content", len(b), err))
+	}
+	r.Add(25)
+	r.AddDistinct(2)
 }
 
 func c09Replay(kind string, raw json.RawMessage) int {
